@@ -190,11 +190,12 @@ def run(R):
         bk = tonic.body(re.compile(r'<metadata::encoding::Binary as metadata::encoding::ValueEncoding>::is_valid_key$'))
         R.saw(bk)
         # the "-bin" suffix test; map lookups by &str are case-insensitive (http::HeaderMap normalises), so the test must be too
-        sfx = [const_value(tonic, bk.origin(a)) for bb, t in bk.calls() for a in t['args']]
-        sfx += [v for bb in bk.live_blocks() for st in bk.blocks[bb]['stmts'] if 'rv' in st for v in [const_value(tonic, bk._origin_def(('stmt', bb, 0, st['rv']), 0, set()))]]
+        bkf = family(tonic, bk)   # the test may sit in a closure (len.checked_sub(4).is_some_and(|start| key[start..].eq_ignore_ascii_case(..)))
+        sfx = [const_value(tonic, m_.origin(a)) for m_ in bkf for bb, t in m_.calls() for a in t['args']]
+        sfx += [v for m_ in bkf for bb in m_.live_blocks() for st in m_.blocks[bb]['stmts'] if 'rv' in st for v in [const_value(tonic, m_._origin_def(('stmt', bb, 0, st['rv']), 0, set()))]]
         has_sfx = any(x in ('-bin', b'-bin') for x in sfx)
         R.check(has_sfx, 'C08.R3', 'binary=suffix(-bin)', site(bk), 'Binary::is_valid_key tests the "-bin" suffix: constants seen %r' % [x for x in sfx if isinstance(x, (str, bytes))])
-        ci = bool(bk.calls(name='eq_ignore_ascii_case')) or (bool(bk.calls(name='to_ascii_lowercase') or bk.calls(name='to_lowercase')) and bool(bk.calls(name='ends_with')))
+        ci = bool(fam_calls(bkf, name='eq_ignore_ascii_case')) or (bool(fam_calls(bkf, name='to_ascii_lowercase') or fam_calls(bkf, name='to_lowercase')) and bool(fam_calls(bkf, name='ends_with')))
         R.check(ci, 'C08.R3', 'binary-suffix-case-insensitive', site(bk),
                 'the suffix test ignores ASCII case: %r (accepted: eq_ignore_ascii_case on the last 4 bytes, or lower-casing before ends_with). A case-sensitive test lets map.get("X-FOO-BIN") '
                 'pass the Ascii key check while http::HeaderMap finds the binary entry "x-foo-bin", which is then presented as an ASCII value' % ci)
